@@ -47,6 +47,7 @@ package interp
 
 //@ func cutElemSubscript
 //@ props C28
+//@ ensures [name-non-empty] implies(ok, name != "")
 
 //@ func mapfileSplit$1
 //@ props C28
